@@ -98,8 +98,11 @@ def gen_layout(rnd):
             toks.append('{%s:%s}' % (rnd.choice(['date', 'Date']), dfmt))
         elif r == 'amount':
             toks.append('{%samount}' % sign)
-        else:
+        elif r in ('_', '*', 'description', 'location'):
             toks.append('{%s}' % r)
+        else:
+            # custom column names are case-insensitive (copied from the bank's header row: {Memo}, {CARDHOLDER}); rules and templates read them in lower case
+            toks.append('{%s}' % rnd.choice([r, r, r.title(), r.upper()]))
     fmt = rnd.choice([',', ', ', ' , ']).join(toks)
     template = None
     if mode == 'template':
@@ -289,6 +292,10 @@ def judge_csv_case(rec, rnd, tmp, t):
     dl = {None: ',', 'tab': '\t'}.get(delim, delim)
     lineterm = rnd.choice(['\n', '\n', '\r\n'])
     text = render_csv(rows, hdr, len(lay['roles']), dl, lineterm)
+    if hdr and rnd.random() < .08:
+        # the one line that `has_header` skips is the FIRST LINE of the file, whatever it holds: here an empty line (a text export that starts with one)
+        text = lineterm + text.split(lineterm, 1)[1] if lineterm in text else text
+        rec.count('files_whose_header_line_is_blank')
     case = {'kind': 'csv', 'source': src, 'text': text, 'roles': lay['roles']}
     path = os.path.join(tmp, 'f.csv')
     with open(path, 'w', encoding='utf-8', newline='') as f:
